@@ -8,11 +8,6 @@ open CprocVerif.Scan CprocVerif.Gen.TokenKinds CprocVerif.Spec.Presumed
 
 variable {text : List UInt8} {δ : Int}
 
-theorem Inv.off_le {s : S} (h : Inv text δ s) : off s ≤ text.length := by
-  have := h.pos_le
-  unfold off
-  split <;> omega
-
 /-- `scan` delivers the location of the token's first byte (offset `start - 2 * skipped`) -/
 theorem scan_ok {s : S} (h : Inv text δ s) {t : Token} {s' : S} (he : scan s = .ok (t, s')) :
     off s ≤ t.start - 2 * s.skipped ∧
@@ -44,6 +39,24 @@ theorem scan_ok {s : S} (h : Inv text δ s) {t : Token} {s' : S} (he : scan s = 
     · exact ⟨a1', a3, a4, a5, a6.of_core rfl, fun hk => by simpa [off] using a7 hk,
         fun hk => by simpa [off] using a8 hk⟩
     · exact ⟨a1', a3, a4, a5, a6, a7, a8⟩
+
+/-- a diagnostic of `scan` names the line of some byte at or behind the current character -/
+theorem scan_err {s : S} (h : Inv text δ s) {e : Err} (he : scan s = .error e) :
+    ErrLine text δ (off s) e := by
+  have hk := scankind_ok (s.inp.length + 2) ({ s with sawspace := false } : S)
+    (h.of_core (s' := { s with sawspace := false }) rfl)
+  unfold scan at he
+  cases hsk : scankind (s.inp.length + 2) ({ s with sawspace := false } : S) with
+  | error e1 =>
+    rw [hsk] at hk he
+    simp only [Except.error.injEq] at he
+    subst he
+    exact hk
+  | ok r =>
+    obtain ⟨k, l, p, s1⟩ := r
+    rw [hsk] at he
+    simp only [] at he
+    split at he <;> cases he
 
 /-! ## Directive records and the shift they cause -/
 
